@@ -24,7 +24,7 @@ THEOREMS = [
     "C16.throttle_first_sim_bridge",
     "C16.sample_tie_rule_derived",
 ]
-RULE = ("20% of the non-mapper cases subscribe the SAME observable instance a second time (overlapping or later) and compare with a fresh single subscription; timelines of 0..7 elements + terminal (completed/error/none; 12% non-conforming or with pre-subscription messages): bursts, gaps of exactly "
+RULE = ("throttle_with_mapper durations include reactivex.timer(d) WITHOUT a scheduler (must run on the subscribe-time scheduler; real-time leaks are counted); 30% of the hot throttle_first / sample cases have a consumer that pushes an echo element into the source from inside on_next (re-entrant feedback); 20% of the non-mapper cases subscribe the SAME observable instance a second time (overlapping or later) and compare with a fresh single subscription; timelines of 0..7 elements + terminal (completed/error/none; 12% non-conforming or with pre-subscription messages): bursts, gaps of exactly "
         "d-1/d/d+1 ticks, elements at / around sampler ticks, terminal with a pending element, simultaneous arrivals; hot and cold sources; "
         "non-trivial = output differs from the source as seen (something was dropped, delayed or flushed)")
 ASSUMPTIONS = ["virtual time in integer ticks on TestScheduler; the operator's timers are armed inside on_next / after the source subscription, so a "
@@ -75,6 +75,9 @@ def cases(rng, tier):
                 t2 = T.gen_sub2(rng, msgs, p=0.2)
                 if t2 is not None:
                     c["sub2"] = t2          # the same observable instance subscribed again: state must be per subscription
+            if op in ("throttle_first", "sample") and src == "hot" and "sub2" not in c and c.get("d", 1) > 0 and rng.random() < 0.3:
+                # re-entrant feedback: the consumer pushes ("echo", k) into the hot source from inside on_next for its k-th element
+                c["echo"] = sorted({rng.randrange(0, 4) for _ in range(rng.choice([1, 1, 2, 3]))})
             c["msgs"] = T.to_cold(msgs) if src == "cold" else msgs
             yield c
 
@@ -124,13 +127,21 @@ def expected(case):
         w = case["d"]
         if w <= 0:
             return [[SUB, ["E", "ValueError"]]]
-        out, last = [], None
+        out, last, k = [], None, 0
+        echo = set(case.get("echo") or [])
         for t, n in src:
             if n[0] != "N":
                 out.append([t, n])
-            elif last is None or t - last >= w:          # at least the window duration since the last EMITTED one
-                out.append([t, n])
-                last = t
+                continue
+            arrivals = [n]                                   # the combined arrival sequence at this instant
+            while arrivals:
+                m = arrivals.pop(0)
+                if last is None or t - last >= w:          # at least the window duration since the last EMITTED one
+                    out.append([t, m])
+                    last = t
+                    if k in echo and not (isinstance(m[1], dict) and (m[1].get("t") or [None])[0] == "echo"):
+                        arrivals.append(["N", {"t": ["echo", k]}])      # pushed by the consumer while it handles m
+                    k += 1
         return out
     if op in ("debounce", "debounce_alias"):
         d = case["d"]
@@ -153,11 +164,14 @@ def expected(case):
             ticks = [[t, "tick" if n[0] != "E" else n] for t, n in T.seen(case["sampler"], src=case["sampler"]["src"])]
         # at an equal instant the source goes first, except a cold source (scheduled at subscription) against a hot sampler
         sampler_first = op == "sample_obs" and case["src"] == "cold" and case["sampler"]["src"] == "hot"
+        echo = set(case.get("echo") or [])
+        delivered = 0
+        carry = None
         out = []
         i = 0
         done = False
         for k, ev in ticks:
-            latest = None
+            latest, carry = carry, None
             while i < len(src) and (src[i][0] < k or (src[i][0] == k and not sampler_first)):
                 t, n = src[i]
                 i += 1
@@ -171,6 +185,9 @@ def expected(case):
                 return out + [[k, ev]]
             if latest is not None:
                 out.append([k, latest])                  # the latest not-yet-sampled element
+                if delivered in echo and not done and not (isinstance(latest[1], dict) and (latest[1].get("t") or [None])[0] == "echo"):
+                    carry = ["N", {"t": ["echo", delivered]}]      # pushed by the consumer at this tick: arrives after it
+                delivered += 1
             if done:
                 return out + [[k, ["C"]]]
         for t, n in src[i:]:
@@ -205,6 +222,8 @@ def expected(case):
 def oracle(case, io):
     if "raised" in io:
         return f"operator raised {io['raised']}"
+    if T.leak_oracle(case, io):
+        return T.leak_oracle(case, io)
     exp = expected(case)
     if fw.key(exp) != fw.key(io["out"]):
         return f"{case['op']}: expected {exp} got {io['out']}"
@@ -218,6 +237,8 @@ def nontrivial(case, io):
 def bucket(case, io):
     yield from T.shape(case, io)
     yield f"{case['op']}:second-subscription={'sub2' in case}"
+    if "echo" in case:
+        yield f"{case['op']}:reentrant-feedback"
     s = T.seen(case)
     if case["op"] in ("debounce", "debounce_alias", "throttle_first") and "d" in case:
         gaps = {b[0] - a[0] for a, b in zip(s, s[1:])}
@@ -225,13 +246,20 @@ def bucket(case, io):
         yield f"{case['op']}:gap==0:{0 in gaps}"
     if case["op"] == "throttle_with_mapper":
         yield f"twm:raise_at={case['raise_at']}"
-        yield f"twm:first-signals={sorted({('inline' if isinstance(tl, dict) else T.conform(tl)[0][1][0] if tl else '-') for tl in case['inners']})}"
+        yield f"twm:first-signals={sorted({('inline' if T.is_inline(tl) else 'timer' if isinstance(tl, dict) else T.conform(tl)[0][1][0] if tl else '-') for tl in case['inners']})}"
     if case["op"] == "sample":
         yield f"sample:element-at-tick={any((t - SUB) % case['period'] == 0 for t, n in s)}"
 
 
 def shrink(case):
     yield from T.shrink_msgs(case)
+    if "echo" in case:
+        for i in range(len(case["echo"])):
+            c = dict(case)
+            c["echo"] = case["echo"][:i] + case["echo"][i + 1:]
+            if not c["echo"]:
+                del c["echo"]
+            yield c
     if "sub2" in case:
         c = dict(case)
         del c["sub2"]
